@@ -76,7 +76,7 @@ def rule_chk(ctx, F):
     b = F.one_body(r"^net::xfr::protocol::interpreter::XfrResponseInterpreter::interpret_response$")
     if ctx.anchor(R, "XfrResponseInterpreter::interpret_response", b):
         chk = b.calls_matching(r"XfrResponseInterpreter::check_response$")
-        uses = b.calls_matching(r"XfrResponseInterpreter::initialize$|XfrZoneUpdateIterator::<.*>::new$|iterator::XfrZoneUpdateIterator.*::new$")
+        uses = b.calls_matching(r"XfrResponseInterpreter::initialize$|interpreter::Inner::new$|XfrZoneUpdateIterator::<.*>::new$|iterator::XfrZoneUpdateIterator.*::new$")
         ctx.anchor(R, "check_response call", len(chk) == 1, b.where())
         ctx.anchor(R, "interpretation sites (initialize / iterator)", len(uses) >= 2, b.where())
         for bb, t in uses:
@@ -384,6 +384,11 @@ def rule_keepttl(ctx, F):
         # or corrected before any of the existing records is copied over (the only way the new RRset gets content)
         good = [bb for bb, tt in sets if from_existing(b.term_of_operand(tt["args"][1]))]
         pushes = [bb for bb, tt in b.calls() if re.search(r"Rrset::push_data$", tt["fn"] or "")]
+        # ... also when the copying is done by a closure handed to an iterator adaptor (for_each / extend)
+        from mirlib import closures_created_in
+        for bi, cb, ops in closures_created_in(F, b):
+            if cb.calls_matching(r"Rrset::push_data$"):
+                pushes.append(bi)
         ok = bool(good) and bool(pushes) and all(any(b.dominates(g, pb) for g in good) for pb in pushes)
     ctx.ob(R, b, "the remaining records keep the TTL of their RRset", ok,
            "delete_record_from_rrset builds the smaller RRset with the TTL of the record that is deleted: removing "
